@@ -14,7 +14,6 @@ Lemma IZR_neg k : (k < 0)%Z -> IZR k < 0.
 Proof. intro H. apply (IZR_lt k 0 H). Qed.
 
 (* --------------------------------------------------------------- geometric *)
-(* p = 1 is accepted by the constructor but gives NaN at k = 0 (geometric_boundary_refuted) *)
 Lemma geometric_formula p : 0 < p < 1 ->
   exists d, geo_new p = Some d /\
     (forall k, (0 <= k)%Z -> geo_logpdf d (IZR k) = Val (Fin (ln (geometric_pmf p k)))) /\
@@ -24,11 +23,24 @@ Proof.
   intros [H0 H1]. unfold geo_new. rewrite Rleb_f, Rltb_f by lra. cbn [orb].
   eexists; split; [reflexivity|]. repeat split; unfold geo_logpdf; cbn [o_p1 o_p2].
   - intros k Hk. rewrite is_intb_IZR. cbn [negb]. rewrite Rltb_f by (apply IZR_nonneg; exact Hk).
-    red_er. rewrite !elog_pos by lra. red_er. do 2 f_equal.
-    unfold geometric_pmf. set (q := 1 + - p). replace (1 - p) with q by (unfold q; lra).
-    assert (0 < q) by (unfold q; lra). ln_all. fin.
+    destruct (Reqb (IZR k) 0) eqn:E; [apply Reqb_true in E|];
+    red_er; rewrite !elog_pos by lra; red_er; do 2 f_equal;
+    unfold geometric_pmf; set (q := 1 + - p); replace (1 - p) with q by (unfold q; lra);
+    assert (0 < q) by (unfold q; lra); ln_all; try rewrite E; fin.
   - intros k Hk. rewrite is_intb_IZR. cbn [negb]. rewrite Rltb_t by (apply IZR_neg; exact Hk). reflexivity.
   - intros x Hx. rewrite Hx. reflexivity.
+Qed.
+(* p = 1 (accepted by the constructor): all mass at k = 0, no 0 * log 0 *)
+Lemma geometric_boundary : exists d, geo_new 1 = Some d /\
+    geo_logpdf d (IZR 0) = Val (Fin 0) /\ (forall k, (0 < k)%Z -> geo_logpdf d (IZR k) = Val NInf).
+Proof.
+  unfold geo_new. rewrite Rleb_f, Rltb_f by lra. cbn [orb].
+  eexists; split; [reflexivity|]. split; unfold geo_logpdf; cbn [o_p1 o_p2].
+  - rewrite is_intb_IZR. cbn [negb]. rewrite Rltb_f by lra. rewrite Reqb_t by reflexivity.
+    rewrite elog_pos by lra. red_er. rewrite ln_1. do 2 f_equal. lra.
+  - intros k Hk. rewrite is_intb_IZR. cbn [negb]. assert (0 < IZR k) by (apply (IZR_lt 0 k Hk)).
+    rewrite Rltb_f by lra. rewrite Reqb_f by lra. red_er. rewrite (elog_zero (1 + - (1))) by lra.
+    rewrite elog_pos by lra. red_er. rewrite inf_times_pos by lra. reflexivity.
 Qed.
 Lemma geometric_ctor p : geo_new p = None <-> ~ geometric_valid p.
 Proof.
@@ -73,15 +85,15 @@ Proof.
   intros Hr [H0 H1]. unfold nb_new. rewrite Rleb_f, !Rltb_f by lra. cbn [orb].
   eexists; split; [reflexivity|]. repeat split; unfold nb_logpdf; cbn [m_r m_lp m_z m_c1].
   - intros k Hk. rewrite is_intb_IZR. pose proof (IZR_nonneg k Hk). rewrite Rltb_f by lra. cbn [negb orb].
-    red_er. rewrite !elgam_pos by lra. rewrite !elog_pos by lra. red_er. do 2 f_equal.
-    unfold negbinomial_pmf, Gam. set (q := 1 + - p). replace (1 - p) with q by (unfold q; lra).
-    assert (0 < q) by (unfold q; lra). ln_all. fin.
+    destruct (Reqb (IZR k) 0) eqn:E; [apply Reqb_true in E|];
+    red_er; rewrite !elgam_pos by lra; rewrite !elog_pos by lra; red_er; do 2 f_equal;
+    unfold negbinomial_pmf, Gam; set (q := 1 + - p); replace (1 - p) with q by (unfold q; lra);
+    assert (0 < q) by (unfold q; lra); ln_all; try rewrite E; fin.
   - intros k Hk. rewrite Rltb_t by (apply IZR_neg; exact Hk). reflexivity.
   - intros x Hx. rewrite Hx. cbn [negb]. rewrite orb_true_r. reflexivity.
 Qed.
 
 (* ---------------------------------------------------------------- binomial *)
-(* theta in {0,1} is accepted by the constructor but gives NaN (binomial_boundary_refuted) *)
 Lemma binomial_formula theta n : 0 < theta < 1 -> (0 <= n)%Z ->
   exists d, bin_new lgam theta n = Some d /\
     (forall k, (0 <= k <= n)%Z -> bin_logpdf lgam d (IZR k) = Val (Fin (ln (binomial_pmf lgam theta n k)))) /\
@@ -94,21 +106,18 @@ Proof.
   eexists; split; [reflexivity|]. repeat split; unfold bin_logpdf; cbn [i_theta i_n i_np1 i_z i_c1 i_ct];
     rewrite ?plus_IZR.
   - intros k [Hk0 Hk1]. rewrite is_intb_IZR. pose proof (IZR_nonneg k Hk0). pose proof (IZR_le k n Hk1).
-    rewrite Rltb_f by lra. cbn [negb orb]. red_er. rewrite !elgam_pos by lra. rewrite !elog_pos by lra.
-    red_er. do 2 f_equal.
-    unfold binomial_pmf, Gam. set (q := 1 + - theta). replace (1 - theta) with q by (unfold q; lra).
-    assert (0 < q) by (unfold q; lra).
-    replace (IZR n - IZR k + 1) with (IZR n + 1 + - IZR k) by lra.
-    ln_all. fin.
+    rewrite !Rltb_f by lra. cbn [negb orb]. red_er. cbn [eis_zero].
+    destruct (Reqb (IZR k) 0) eqn:E; [apply Reqb_true in E|];
+    (destruct (Reqb (IZR n + - IZR k) 0) eqn:E'; [apply Reqb_true in E'|]);
+    rewrite !elgam_pos by lra; rewrite ?elog_pos by lra;
+    red_er; do 2 f_equal;
+    unfold binomial_pmf, Gam; set (q := 1 + - theta); replace (1 - theta) with q by (unfold q; lra);
+    assert (0 < q) by (unfold q; lra);
+    replace (IZR n - IZR k + 1) with (IZR n + 1 + - IZR k) by lra;
+    ln_all; replace (IZR n + - IZR k) with (IZR n - IZR k) in * by lra; try rewrite E'; try rewrite E; fin.
   - intros k [Hk|Hk].
     + rewrite Rltb_t by (apply IZR_neg; exact Hk). reflexivity.
-    + rewrite is_intb_IZR. assert (0 <= k)%Z by lia. pose proof (IZR_nonneg k H).
-      rewrite Rltb_f by lra. cbn [negb orb]. red_er.
-      assert (Hp : IZR n + 1 + - IZR k <= 0).
-      { assert (n + 1 <= k)%Z by lia. apply IZR_le in H3. rewrite plus_IZR in H3. lra. }
-      rewrite (elgam_pole lgam (IZR n + 1 + - IZR k)); [| exact Hp |].
-      * rewrite !elgam_pos by lra. rewrite !elog_pos by lra. reflexivity.
-      * apply (is_intb_eq _ (n + 1 - k)%Z). rewrite minus_IZR, plus_IZR. lra.
+    + rewrite (Rltb_t (IZR n) (IZR k)) by (apply IZR_lt; exact Hk). rewrite orb_true_r. reflexivity.
   - intros x Hx. rewrite Hx. cbn [negb]. rewrite orb_true_r. reflexivity.
 Qed.
 Lemma binomial_ctor theta n : bin_new lgam theta n = None <-> ~ binomial_valid theta n.
@@ -125,23 +134,31 @@ Qed.
 (* ------------------------------------------------------------- categorical *)
 Lemma categorical_formula theta : theta <> [] -> Forall (fun t => 0 < t) theta ->
   exists d, cat_new theta = Some d /\
-    forall k, (0 <= k < Z.of_nat (length theta))%Z ->
-      cat_logpdf d (IZR k) = Val (Fin (ln (nth (Z.to_nat k) theta 0))).
+    (forall k, (0 <= k < Z.of_nat (length theta))%Z ->
+      cat_logpdf d (IZR k) = Val (Fin (ln (nth (Z.to_nat k) theta 0)))) /\
+    (forall k, (k < 0 \/ Z.of_nat (length theta) <= k)%Z -> cat_logpdf d (IZR k) = Val NInf) /\
+    (forall x, is_intb x = false -> cat_logpdf d x = ErrInt).
 Proof.
   intros Hne Hpos. unfold cat_new.
   assert (E : existsb (fun t => Rltb t 0) theta = false).
   { clear Hne. induction Hpos as [|t l Ht Hl IH]; [reflexivity|]. cbn. rewrite Rltb_f by lra. exact IH. }
   rewrite E. destruct theta as [|t0 l] eqn:Et; [contradiction|]. rewrite <- Et in *.
-  eexists; split; [reflexivity|]. intros k [Hk0 Hk1]. unfold cat_logpdf.
-  rewrite Ztrunc_IZR. rewrite map_length.
-  assert (E1 : (k <? 0)%Z = false) by (apply Z.ltb_ge; lia).
-  assert (E2 : (Z.of_nat (length theta) <=? k)%Z = false) by (apply Z.leb_gt; lia).
-  rewrite E1, E2. cbn [orb].
-  assert (Hi : (Z.to_nat k < length theta)%nat) by lia.
-  rewrite (nth_indep _ NaN (elog (Fin 0))) by (rewrite map_length; exact Hi).
-  rewrite (map_nth (fun t => elog (Fin t))).
-  rewrite elog_pos; [reflexivity|].
-  rewrite Forall_forall in Hpos. apply Hpos. apply nth_In. exact Hi.
+  eexists; split; [reflexivity|]. split; [|split].
+  - intros k [Hk0 Hk1]. unfold cat_logpdf. rewrite is_intb_IZR. cbn [negb].
+    rewrite Ztrunc_IZR. rewrite map_length.
+    rewrite Rltb_f by (apply IZR_nonneg; exact Hk0).
+    rewrite Rleb_f by (apply IZR_lt; exact Hk1). cbn [orb].
+    assert (Hi : (Z.to_nat k < length theta)%nat) by lia.
+    rewrite (nth_indep _ NaN (elog (Fin 0))) by (rewrite map_length; exact Hi).
+    rewrite (map_nth (fun t => elog (Fin t))).
+    rewrite elog_pos; [reflexivity|].
+    rewrite Forall_forall in Hpos. apply Hpos. apply nth_In. exact Hi.
+  - intros k Hk. unfold cat_logpdf. rewrite is_intb_IZR. cbn [negb]. rewrite map_length.
+    destruct Hk as [Hk|Hk].
+    + rewrite Rltb_t by (apply IZR_neg; exact Hk). reflexivity.
+    + rewrite (Rleb_t (IZR (Z.of_nat (length theta)))) by (apply IZR_le; exact Hk).
+      rewrite orb_true_r. reflexivity.
+  - intros x Hx. unfold cat_logpdf. rewrite Hx. reflexivity.
 Qed.
 (* exp(LogPdf) summed over the support is the sum of the weights (= 1 for a normalised vector;
    the constructor does not normalise: categorical_ctor finding) *)
